@@ -136,6 +136,18 @@ func run(c Case) error {
 		}
 	}
 	err := s.Err()
+	// the counters keep describing the last returned object after the Scan that
+	// reported the end of the input (a caller reads them after its scan loop)
+	if n := len(got); err == nil && n > 0 && n <= len(want) {
+		lb := blockOf[n-1]
+		// (blocks without returned objects may follow the last object: the
+		// counters may have moved on to them, but never backwards)
+		last := off(len(enc.Blocks) - 1)
+		if f, p := s.FullyScannedBytes(), s.PreviousFullyScannedBytes(); f < off(lb) || f > last || p < prevOff(lb) || p > f {
+			s.Close()
+			return harness.Failf("C09/offsets-after-end", "after the Scan that returned false at the end of the input: FullyScannedBytes/Previous = %d/%d; after the last object (block %d) they were %d/%d and the last block starts at %d", f, p, lb, off(lb), prevOff(lb), last)
+		}
+	}
 	s.Close()
 	if err != nil {
 		return harness.Failf("C09/scan-error", "scan failed: %v", err)
